@@ -127,6 +127,11 @@ def impl_graph(n, W, raw=False):
     denormalize_game(h, (s, sv))
     res["R"] = [fl(r) for r in h._graph_matrix]
     res["rt_values"] = fl(h.get_values())
+    # ... and on the very object that was normalised and READ in between (no copy): values must come back as well
+    if h is not g:
+        denormalize_game(g, (s, sv))
+    res["rt_same_object_values"] = fl(g.get_values())
+    res["rt_same_object_value_each"] = [float(g.get_value(c)) for c in all_coalitions(g)]
     return res
 
 
@@ -703,6 +708,10 @@ def run_graph(ctx, cases):
                         fails.append((i, f"graph game and its tabulated form normalise differently ({nm})", (a, impl["tab"][i][col])))
                 if abs(impl["rt_values"][i] - impl["before"][i]) > 1e-9 * max(1.0, Mx):
                     fails.append((i, "denormalised graph value differs from the original", (impl["rt_values"][i], impl["before"][i])))
+                for key_ in ("rt_same_object_values", "rt_same_object_value_each"):
+                    if abs(impl[key_][i] - impl["before"][i]) > 1e-9 * max(1.0, Mx):
+                        fails.append((i, "normalise, read, de-normalise on ONE graph-game object: value differs from the original (" + key_ + ")",
+                                      (impl[key_][i], impl["before"][i])))
             f2, branch = oracle_normalised(n, impl["before"] if not exact else [frac(x) for x in impl["before"]], impl["tab"])
             fails += f2
             vals = impl["values"]
